@@ -70,7 +70,7 @@ ACC_CALLS = [
 
 
 def mean_fns(cxx):
-    mean = Fn('hist_mean', TU, 'mean', flt=FLT, select=targs(cxx + ' *'), calls=ACC_CALLS)
+    mean = Fn('hist_mean', TU, 'mean', flt=FLT, select=targs(cxx + ' *'), calls=ACC_CALLS, hooks=[iter_default_hook])
     op = LambdaFn('mean_op', TU, 'mean', flt=FLT, select=targs(cxx + ' *'), lambda_index=0, optional=True)
     return mean, op
 
@@ -116,7 +116,7 @@ def sort_calls(tag):
 
 
 def ctor_fn(tag, cxx):
-    return Fn('hist_ctor', TU, 'histogram_t', flt=FLT, select=targs(cxx + ' *'), kinds=('CXXConstructorDecl',), self_struct='struct nv_histogram',
+    return Fn('hist_ctor', TU, 'histogram_t', flt=FLT, select=targs(cxx + ' *'), kinds=('CXXConstructorDecl',), self_struct='struct nv_histogram', hooks=[iter_default_hook],
               types=HTYPES, calls=sort_calls(tag), members=[(r'^update\|', 'histogram_update'), (r'^size\|.*tensor_base_t<double, 1', 'nv_t1d_size')])
 
 
@@ -142,16 +142,16 @@ def factory_fn(kind, tag, cxx):
              (r'^ctor\|nano::tensor_t<nano::tensor_vector_storage_t, double, 1>\|void \(long\)', 'nv_t1d_make({0})'),
              (r'^percentile_sorted\|', 'nv_ps_call({0}, {1}, {2}, NV_LOOPVAR_make_pct_1)'),
              (r'^operator\(\)\|.*tensor_vector_storage_t, double, 1', '{0}.p[{1}]')] + ITER_CALLS
-    return Fn(f'make_{kind}', TU, name, flt=FLT, select=sel, types=HTYPES, calls=calls,
+    return Fn(f'make_{kind}', TU, name, flt=FLT, select=sel, types=HTYPES, calls=calls, hooks=[iter_default_hook],
               members=[(r'^size\|.*tensor_base_t<double, 1', 'nv_t1d_size')])
 
 
 def factory_targets(tier, update_fns):
     out = []
-    # (make_from_percentiles / make_from_ratios: contracts written in factory.h but NOT wired -- see not_decided)
     plan = [('thr', 'i64')]
     if tier == 'thorough':
         plan += [('thr', 'i16'), ('thr', 'i32'), ('thr', 'f64')]       # (f64: ~200 s of SAT time)
+        plan += [('pct', 'i64'), ('rat', 'i64'), ('pct', 'f64'), ('rat', 'f64')]
     byt = {t: (c, ct) for t, c, ct in ELEMS}
     for kind, tag in plan:
         cxx, cty = byt[tag]
@@ -159,7 +159,20 @@ def factory_targets(tier, update_fns):
             c = ctor_fn(tag, cxx)
             c.emit()
             return f'struct nv_histogram;\n#define NV_HIST_CTOR_PROTO {c.printer.signature};\n'
+        if kind == 'rat':
+            # make_from_ratios dereferences its iterators: the contract is enforced on the entry wrapper of factory.h (NV_OWNER_PARAM)
+            def pre_rat(tag=tag, cxx=cxx, pre=pre):
+                f = factory_fn('rat', tag, cxx)
+                f.emit()
+                return pre() + f'#define NV_MAKE_RAT_PROTO {f.printer.signature};\n'
+            harness = (f'int main(void)\n{{\n  {cty}* begin;\n  int64_t n;\n  struct nv_t1d ratios;\n  nv_thrown = 0;\n  nv_make_rat_entry(begin, n, ratios);\n'
+                       '  __CPROVER_assert(0, "nv_canary: end of harness reachable");\n  return 0;\n}\n')
+            out.append(Target(f'make_rat_{tag}', (lambda tag=tag, cxx=cxx: [factory_fn('rat', tag, cxx), ctor_fn(tag, cxx)] + update_fns(cxx)),
+                              'specs/C20/factory.h', enforce='nv_make_rat_entry', replace=['hist_ctor'], pre=pre_rat, loops=1, timeout=290, harness=harness,
+                              cbmc_flags=['--sat-solver', 'cadical'], defines=elem_defines(tag, cty) + ['NV_PARAM_MAX=1.0', 'NV_OWNER_PARAM=1']))
+            continue
         out.append(Target(f'make_{kind}_{tag}', (lambda kind=kind, tag=tag, cxx=cxx: [factory_fn(kind, tag, cxx), ctor_fn(tag, cxx)] + update_fns(cxx)),
                           'specs/C20/factory.h', enforce=f'make_{kind}', replace=['hist_ctor'], pre=pre, loops=(0 if kind == 'thr' else 1), timeout=290,
+                          cbmc_flags=['--sat-solver', 'cadical'],      # 30x faster than minisat on these targets (make_pct_i64: 7 s vs 276 s)
                           defines=elem_defines(tag, cty) + (['NV_PARAM_MAX=1.0'] if kind == 'rat' else [])))
     return out
